@@ -192,6 +192,28 @@ def getitem(np_, a, idx):
         return res
     if not isinstance(idx, tuple):
         idx = (idx,)
+    if any(x is None for x in idx):
+        # np.newaxis: index without it, then insert axes of extent 1
+        plain = tuple(x for x in idx if x is not None)
+        inner = getitem(np_, a, plain) if plain else a
+        if not isinstance(inner, TArr):
+            raise Untranslatable("np.newaxis on a scalar selection of a symbolic-extent array")
+        # position of every new axis in the result: count the slices (kept axes) before it
+        layout, kept = [], 0
+        for x in idx:
+            if x is None:
+                layout.append(None)
+            elif isinstance(x, slice) or x is Ellipsis:
+                layout.append(kept)
+                kept += 1
+        while kept < inner.ndim:
+            layout.append(kept)
+            kept += 1
+        shape = tuple(1 if k is None else inner.shape[k] for k in layout)
+
+        def f(*jdx):
+            return z3.Select(inner.term, *[j for j, k in zip(jdx, layout) if k is not None])
+        return from_fn(np_, shape, inner.dtype, f)
     if any(x is Ellipsis for x in idx):
         k = idx.index(Ellipsis)
         idx = idx[:k] + (slice(None),) * (a.ndim - (len(idx) - 1)) + idx[k + 1:]
@@ -247,6 +269,28 @@ def _slice_bound(np_, v, n, default):
 def setitem(np_, a, idx, v):
     if not isinstance(idx, tuple):
         idx = (idx,)
+    if a.ndim == 1 and len(idx) == 1 and isinstance(idx[0], slice):
+        # a[lo:hi] = v for a 1-D array: v an array of the slice's length or a scalar
+        x = idx[0]
+        if x.step is not None and raw(x.step) != 1:
+            raise Untranslatable("strided slice assignment on symbolic-extent array")
+        n = term_of(raw(a.shape[0]), "int")
+        lo = _slice_bound(np_, x.start, n, 0)
+        hi = _slice_bound(np_, x.stop, n, n)
+        k = kind_of_dtype(a.dtype)
+        j = fresh_index(np_, 1)[0]
+        if isinstance(v, TArr):
+            if v.ndim != 1:
+                raise Untranslatable("slice assignment of an n-d value")
+            ln = term_of(raw(v.shape[0]), "int")
+            if not np_.I.ctx.branch(z3.If(hi > lo, hi - lo, 0) == ln):
+                raise Raised(ValueError("could not broadcast input array into the slice"))
+            val = elem_term(v, (j - lo,), k)
+        else:
+            val = term_of(raw(v), k)
+        a.term = z3.Lambda([j], z3.If(z3.And(j >= lo, j < hi), val, z3.Select(a.term, j)))
+        a.slice_of = None
+        return
     if len(idx) != a.ndim or any(isinstance(x, slice) for x in idx):
         raise Untranslatable("slice assignment on symbolic-extent array")
     ts = [norm_int_index(np_, x, a.shape[k]) for k, x in enumerate(idx)]
@@ -475,3 +519,28 @@ def argsort(np_, a):
                                          z3.Select(a.term, z3.Select(p, i)) <= z3.Select(a.term, z3.Select(p, i + 1)))), "stub argsort: sorted")
     r = TArr(p, a.shape, _np.int64)
     return r
+
+
+def hstack(np_, arrs):
+    """np.hstack of 2-D arrays with the same (symbolic) row count and CONCRETE column counts"""
+    if not arrs or any(not isinstance(x, TArr) or x.ndim != 2 or not isinstance(raw(x.shape[1]), int) for x in arrs):
+        raise Untranslatable("hstack of symbolic-extent arrays (only 2-D blocks with concrete column counts)")
+    ctx = np_.I.ctx
+    n0 = term_of(raw(arrs[0].shape[0]), "int")
+    for x in arrs[1:]:
+        if not ctx.branch(term_of(raw(x.shape[0]), "int") == n0):
+            raise Raised(ValueError("all the input array dimensions except for the concatenation axis must match exactly"))
+    dt = _np.result_type(*[x.dtype for x in arrs])
+    k = kind_of_dtype(dt)
+    offs, total = [], 0
+    for x in arrs:
+        offs.append(total)
+        total += raw(x.shape[1])
+
+    def f(i, j):
+        t = None
+        for x, off in reversed(list(zip(arrs, offs))):
+            e = elem_term(x, (i, j - off), k)
+            t = e if t is None else z3.If(j < off + raw(x.shape[1]), e, t)
+        return t
+    return from_fn(np_, (arrs[0].shape[0], total), dt, f)
